@@ -1091,11 +1091,9 @@ Proof. vm_compute. reflexivity. Qed.
 (* ================================================================= *)
 (* stage 6: what is not covered, and why                               *)
 (* ================================================================= *)
-(* Compared with the tests of the checker the gated rules ask only for
-     - T_TypeFilter: the default value of the filter type is a good value (true for every
-       default without function or cell components; the model's [of_type] returns the
-       placeholder identities VFun 0 / VMut 0 there, the implementation a fresh function /
-       cell: [type_filter_default_model_refuted]);
+(* The gated rules carry the tests of the checker only (T_TypeFilter: the filter type has a
+   default; that the run-time default [Exec.alloc_default] is a good value of the type is
+   Sound6.alloc_default_sound, see [type_filter_default_typed]).  Beyond them:
      - closure literals under [policy6]: the body is typed without the gated rules
        ([recreate_iterator_refuted]).
    `$+` / `$*`: S13c, S13d and S27 are repaired (the reducer is planted from the static type):
@@ -1145,20 +1143,30 @@ Definition p13b : instr :=
 Theorem map_end_marker_refuted : rt p13b = Ok TString /\ sig (X6e p13b) = SPanic.
 Proof. split; vm_compute; reflexivity. Qed.
 
-(* the model's default of a function type is the placeholder `VFun 0`: closure 0 of the booted
-   store is std.len.  `((mixed ? (int) -> int)().1)(5)` *)
+(* the default of a function type is a FRESH function returning the default of its result
+   type (Exec.alloc_default; the model used to return the placeholder `VFun 0` here):
+   `((mixed ? (int) -> int)().1)(5)` calls the end marker's default function: 0 *)
 Definition t_ii : ty := TFun [TInt] TInt.
 Definition p_tf : list instr :=
   mixed ++ [IBin FunctionCall
               (ITupleAccess (IBin FunctionCall (ITypeFilter (ILocal nmixed (LFunction [] t_mixed)) t_ii)
                                                (IVar (VTup []))) 1)
               (ITuple [IVar (VInt 5)])].
-Theorem type_filter_default_model_refuted :
-  of_type t_ii = Some (VFun 0 [TInt] TInt) /\ ~ vgood W_boot (VFun 0 [TInt] TInt) /\
-  sig (X6 p_tf VVoid) = SPanic.
+Example type_filter_default_typed : exists G' Ts,
+  @typed_list policy6 W_boot [] K0 p_tf G' Ts /\ List.last Ts TVoid = TInt.
 Proof.
-  split; [reflexivity|]. split; [|vm_compute; reflexivity].
-  intros [_ H]. vm_compute in H. discriminate H.
+  eexists. eexists.
+  split; [unfold p_tf, mixed, mixed_body, yield_at; cbn [app]; tylist|reflexivity].
+Qed.
+Example type_filter_default_runs : sig (X6 p_tf VVoid) = SVal (VInt 0).
+Proof. vm_compute. reflexivity. Qed.
+Example type_filter_default_sound : forall powf n,
+  match sig (run_code powf pre_boot n st_boot [[]] p_tf VVoid) with
+  | SVal v => has_type v TInt = true | SError e => doc_err e | SFuel => True | _ => False
+  end.
+Proof.
+  intros powf n. destruct type_filter_default_typed as [G' [Ts [Hl Hlast]]].
+  pose proof (run_boot_sound powf n p_tf G' Ts Hl) as H. rewrite Hlast in H. exact H.
 Qed.
 
 (* ---- the constant-propagation pass does not preserve the gated rules ---- *)
